@@ -37,3 +37,12 @@ extend("C15", "Every decoded document is round-tripped again under the dynamic p
 extend("C16", "roundtrip/large: unknown lists / sets / maps refined to exactly n members, not-null or nullable.")
 for _p in ("C01", "C04", "C06", "C11", "C12"):
     extend(_p, "Strings may hold the ASCII signs that compose with a following U+0338 (= < >); safe prefixes are also cut from the string as written, before normalisation.")
+
+# after the seventh/eighth (coverage-guided) round
+extend("C06", "Number sets holding one value at two precisions.")
+extend("C09", "Capsule types, one with conversion operations of its own, among the inputs of the safe-mode facets.")
+extend("C15", "Objects that look like the dynamic-value wrapper through SimpleJSONValue; strings containing U+FFFD.")
+extend("C17", "Several independently described members (bare nulls and untyped unknowns first) in placeholder collections; a sibling-key-respell construction; refinement bound entries of hostile shape.")
+extend("C18", "nopanic/named-big: targets whose Go type is defined over big.Int / big.Float.")
+extend("C19", "Membership probes through one path buffer rewritten between probes.")
+extend("C20", "PathSet.List repeated on the unchanged set.")
